@@ -173,6 +173,19 @@ def run(ctx):
             ctx.corr_broken.append("rescan history %d: the real updateInterfaces / kernel membership and Model/AnnouncerExt.rescan disagree: %s" %
                                    (m, json.dumps(xcases[m]["in"])[:900]))
 
+    # long-running speakers through controller.SetBalancer + the real Announce, dual-stack status edits (order, second
+    # address with the first kept): every speaker answers exactly for the CURRENT addresses of what it announces
+    l2ov = {"internal/layer2/zz_verif.go": os.path.join(vlib.VERIF, "harness/internal/layer2/zz_verif.go")}
+    recs, okrun, log = ctx.go_harness("speaker", ["zz_verif_l2_test.go", "zz_verif_l2multi_test.go"], "TestVerifL2Multi$",
+                                      seed=ctx.seed, n=15 if not thorough else 300, tag="l2m", extra_overlay=l2ov, timeout=600)
+    for r in recs:
+        if r.get("t") == "fail" and r.get("sig") in ("l2m-answers-unheld-address", "l2m-no-answer-for-held-address"):
+            ctx.oracle_fail(r.get("sig", "?"), r.get("what", ""), r.get("replay"))
+        elif r.get("t") == "stat":
+            st[r["k"]] = st.get(r["k"], 0) + r["v"]
+    if not okrun and not any("does not build" in c for c in ctx.corr_broken):
+        ctx.corr_broken.append("harness TestVerifL2Multi failed: " + log[-1500:])
+
     # multicast joins that fail: real responders in a private network namespace (needs the privilege to unshare)
     jcases = []
     recs, okrun, log = ctx.go_harness(PKG, FILES, "TestVerifJoinFailure$", seed=ctx.seed, n=3 if not thorough else 12, tag="jf", timeout=300)
